@@ -22,7 +22,7 @@ macro "flagcases" h:ident : tactic => `(tactic|
 
 theorem maskBefore_flag (parsed : Abstract) (st : OptState) (b : Nat) (hb : b ∈ flagBits) :
     has (maskBeforePattern parsed st) b = (has st.mask b || has st.pos b) := by
-  unfold maskBeforePattern
+  unfold maskBeforePattern anchorStage typeStage
   flagcases hb <;> (simp only []; repeat' split) <;> modbits
 
 theorem markComplete_flag (mask : Mask) (p : Str) (m : Mask) (h : markComplete mask p = .ok m) (b : Nat)
